@@ -1177,7 +1177,10 @@ def bridge_run(ctx):
     gen = tlc_generate(ctx, "TcpBridgeGen", "TcpBridgeGen.cfg", "bridge_domains.json")
     dom = json.load(open(gen))
     rnd = random.Random(ctx.seed)
-    cs = class_cases(dom, 300 if ctx.tier == "thorough" else 12, rnd)
+    # the half-close-then-reply closers with a slow reader and a large reply keep data queued in the bridge at the
+    # moment the last close arrives: always part of the run
+    must = [{"closer": c, "up": "in-flight-large", "down": "in-flight-large", "wseg": "64k", "rbuf": "4096", "pace": "slow-reader"} for c in ("server-half-reply", "client-half-reply")]
+    cs = class_cases(dom, 300 if ctx.tier == "thorough" else 12, rnd, must)
     cpath = os.path.join(ctx.scratch, "bridge_cases.json")
     json.dump({"cases": [cap(c) for c in cs]}, open(cpath, "w"))
     go_build_repo(ctx, "./utils/tcpbridge/tcp-bridge-frontend", "tcp-bridge-frontend")
@@ -1185,6 +1188,17 @@ def bridge_run(ctx):
     go_build_harness(ctx)
     events, _ = drive(ctx, "bridge", cases=cpath, timeout=3000)
     return events
+
+
+def bridge_validate(ctx, segs):
+    """Segments with many connections are validated one per TLC run: the set of connections is a constant of the
+    trace specification (all connections of a batch), and every state carries a function over it."""
+    heavy = [s for s in segs if sum(1 for e in s if e.get("ev") == "Open") > 8]
+    light = [s for s in segs if not any(s is h for h in heavy)]
+    fails = validate_segments(ctx, "TcpBridgeTrace", "TcpBridgeTrace.cfg", light, batch=40) if light else []
+    for h in heavy:
+        fails += validate_segments(ctx, "TcpBridgeTrace", "TcpBridgeTrace.cfg", [h], batch=1, timeout=1800)
+    return fails
 
 
 def bridge_report(ctx, fails, label):
@@ -1220,7 +1234,7 @@ def c15(ctx):
             e = dict(e, judge_close=False)
         ev.append(e)
     segs = split_segments(ev)
-    fails = validate_segments(ctx, "TcpBridgeTrace", "TcpBridgeTrace.cfg", segs, batch=40)
+    fails = bridge_validate(ctx, segs)
     bridge_report(ctx, fails, "stream")
     def first_dir_rd(s):
         fd = [e.get("d") for e in s if e.get("ev") == "PeerClose"]
@@ -1258,7 +1272,7 @@ def c16(ctx):
     ctx.assumptions = ["'bounded time' = 10 s (normal propagation takes milliseconds)"]
     events = [dict(e, judge_close=True) if e.get("ev") == "Final" else e for e in bridge_run(ctx)]
     segs = split_segments(events)
-    fails = validate_segments(ctx, "TcpBridgeTrace", "TcpBridgeTrace.cfg", segs, batch=40)
+    fails = bridge_validate(ctx, segs)
     bridge_report(ctx, fails, "close")
     good = [s for s in segs if not any(s is f[0] for f in fails) and any(e.get("ev") == "PeerEOF" for e in s)]
     if good:
